@@ -6,6 +6,16 @@ import os
 VERIF = os.path.dirname(os.path.dirname(os.path.abspath(__file__)))
 
 CLAIMED = {
+    "C15": dict(
+        engine="misc", category="exploration", design_ref="DESIGN.md §7 C15",
+        technique="bounded-exhaustive + structured + random inputs through every codec, results recorded as symbol sequences and checked by TLC against Codec.tla (decode(encode)=id, random access, byte round trip, rank/select/access definitions); PropColumn.tla and Adjacency.tla trace validation for the stateful compressed structures",
+        text="Every sequence up to length 3 (quick) / 4 (thorough) over 8 boundary symbols, structured sequences of lengths 7-9, 63-65, 127-129, 1000 and seeded random ones go through delta (signed/unsigned), bit-packing, delta+bit-packing, run-length (signed/unsigned), bit vectors, the automatic selector, dictionary, Elias-Fano, rank/select and wavelet trees; property columns and adjacency lists are driven through their compression entry points with every read compared to the abstract map / live-entry list.",
+        note="Bit-level arithmetic is exercised with boundary symbols, not modelled. Compressed property columns are unreadable (known finding). epoch_store (tiered-storage feature) is out of scope."),
+    "C16": dict(
+        engine="misc", category="exploration", design_ref="DESIGN.md §7 C16",
+        technique="relations (eq, hash-eq, cmp) of the hashable and orderable wrappers and bit-exact serialisation round trips evaluated on a universe of values, recorded as matrices; ValueLaws.tla checked by TLC for all pairs and triples",
+        text="Equivalence, eq => equal hash, total order consistent with eq, and round-trip identity (spill serializer, WAL close+reopen, snapshot) over a universe of ~85 values per run (every variant, NaN payloads, signed zeros, infinities, integers around 2^53, i64 extremes, empty / non-ASCII strings, nested lists and maps, zero-length vectors + seeded random numerics); consequences for BTreeSet / HashSet / sort checked directly.",
+        note="All f64 bit patterns are sampled, not enumerated. JSON for language bindings is out of scope."),
     "C07": dict(
         engine="txn", category="model_checking", design_ref="DESIGN.md §7 C07",
         technique="copies (import(export), to_memory, save+open, open_in_memory) logged after every action of multi-session histories and validated by TLC against Mvcc.tla (mechanism enumeration or committed graph); plus bit-exact value-fidelity checks and child-process enumeration of truncated / bit-flipped snapshots",
@@ -81,6 +91,8 @@ CLAIMED = {
 REASON_PENDING = "not claimed yet in this round: specification and conformance binding for this property are designed (DESIGN.md §7) but not built; no check is registered rather than an unsound one"
 
 ENGINES = [
+    dict(name="misc", path="spec/misc", serves_properties=["C15", "C16"],
+         kind_free_text="TLA+ Codec.tla / ValueLaws.tla (laws and identities over recorded results, evaluated by TLC); harness `gv codec`, `gv pcol`, `gv vals`"),
     dict(name="query", path="spec/query", serves_properties=["C08", "C09", "C10", "C11"],
          kind_free_text="TLA+ QuerySem.tla (executable reference semantics) + Check_Query.tla / Metamorphic.tla evaluated by TLC; harness `gv q` / `gv qmeta` generates graphs x queries, renders GQL/Cypher, runs sessions and hand-built pipelines"),
     dict(name="store", path="spec/store", serves_properties=["C13", "C14"],
